@@ -258,7 +258,15 @@ namespace detail
 	{
 		GLM_STATIC_ASSERT(std::numeric_limits<T>::is_integer, "'bitfieldExtract' only accept integer inputs");
 
-		return (Value >> static_cast<T>(Offset)) & static_cast<T>(detail::mask(Bits));
+		if(Bits == 0)
+			return vec<L, T, Q>(0);
+
+		// Move the field to the most significant bits, then shift it back down:
+		// sign-extends for signed T, zero-extends for unsigned T, for every width of T
+		typedef typename detail::make_unsigned<T>::type UT;
+		T const Unused = static_cast<T>(static_cast<int>(sizeof(T) * 8) - Bits);
+		vec<L, UT, Q> const Field(vec<L, UT, Q>(Value >> static_cast<T>(Offset)) << static_cast<UT>(Unused));
+		return vec<L, T, Q>(Field) >> Unused;
 	}
 
 	// bitfieldInsert
